@@ -73,7 +73,25 @@ func (x *Exec) buildQuery(pr *Pruner, o *Obligation) string {
 	return pr.Prune(body) + body
 }
 
+// runSolver gives the solver its resource budget (rlimit, in s.cmd) under a wall-clock safety net. When the net fires
+// although the budget was not used up -- the machine is starved -- the run is repeated once with three times the net: a
+// verdict must not depend on what else runs on the machine.
 func runSolver(ctx context.Context, s solverSpec, query string, hardMs int) (status string, out string, ms int64) {
+	status, out, ms, starved := runSolver1(ctx, s, query, hardMs)
+	if starved && ctx.Err() == nil {
+		var ms2 int64
+		status, out, ms2, _ = runSolver1(ctx, s, query, hardMs*3)
+		ms += ms2
+	}
+	return status, out, ms
+}
+
+func runSolver1(ctx context.Context, s solverSpec, query string, hardMs int) (status string, out string, ms int64, starved bool) {
+	status, out, ms = runSolver0(ctx, s, query, hardMs, &starved)
+	return
+}
+
+func runSolver0(ctx context.Context, s solverSpec, query string, hardMs int, starved *bool) (status string, out string, ms int64) {
 	t0 := time.Now()
 	cctx, cancel := context.WithTimeout(ctx, time.Duration(hardMs)*time.Millisecond)
 	defer cancel()
@@ -100,6 +118,9 @@ func runSolver(ctx context.Context, s solverSpec, query string, hardMs int) (sta
 		return "timeout", out, ms
 	}
 	if cctx.Err() != nil {
+		if ctx.Err() == nil {
+			*starved = true // killed by the wall-clock net, not cancelled by a sibling that already decided the goal
+		}
 		return "timeout", out, ms
 	}
 	if strings.Contains(out, "error") || err != nil {
